@@ -1,34 +1,29 @@
-static mut PLANE: (u64, u64) = (0, 0);
-pub(crate) fn stub_proj(_lon: f64, _lat: f64) -> (f64, f64) { unsafe { (f64::from_bits(PLANE.0), f64::from_bits(PLANE.1)) } }
-pub(crate) fn stub_unproj(x: f64, y: f64) -> (f64, f64) { assert!(y >= -2.0 && y <= 2.0, "unproj domain: y outside [-2, 2]"); (x, y) }
-
-fn in_image(x: f64, y: f64, eps: f64) -> bool {
-  let ay = if y < 0.0 { -y } else { y };
-  if !(x >= 0.0 && x <= 8.0 && ay <= 2.0) { return false; }
-  if ay <= 1.0 { return true; }
-  let mut q = (x * 0.5) as u64 as f64;
-  if q > 3.0 { q = 3.0; }
-  let u = x - (2.0 * q + 1.0);
-  let au = if u < 0.0 { -u } else { u };
-  au <= (2.0 - ay) + eps
+// Cut at Layer::hash_with_dxdy (decided by C03): bilinear_interpolation only consumes the cell number and the two offsets, so the
+// harness provides them: every cell of the depth x every offset pair on the 1/256 lattice of [0, 1]^2 (integers -> structurally
+// narrow doubles: the 32 weight products of the code stay small; with arbitrary doubles the instance has 45 M clauses).
+use hp::nested::Layer;
+static mut CUT: (u64, u64, u64) = (0, 0, 0);
+pub(crate) fn stub_hash_with_dxdy(_l: &Layer, _lon: f64, _lat: f64) -> (u64, f64, f64) {
+  unsafe { (CUT.0, f64::from_bits(CUT.1), f64::from_bits(CUT.2)) }
 }
 
-/// region: 0 = any image point, 1 = points whose cell lacks a cardinal neighbour (next to a three-cell point)
-fn k_c19_point(depth: u8, region: u8, band: u8) {
-  let x: f64 = kani::any();
-  let y: f64 = kani::any();
-  kani::assume(in_image(x, y, 8.881784197001252e-16));
-  kani::assume(match band { 0 => y > 1.0, 1 => y >= -1.0 && y <= 1.0, _ => y < -1.0 });
-  unsafe { PLANE = (x.to_bits(), y.to_bits()); }
+/// region: 0 = every cell, 1 = only the cells lacking a S / E / N / W neighbour
+fn k_c19_cell(depth: u8, region: u8) {
+  let h: u64 = kani::any();
+  let a: u16 = kani::any();
+  let b: u16 = kani::any();
+  kani::assume(h < spec_n_hash(depth) && a <= 256 && b <= 256);
+  let dx = a as f64 * 0.00390625;      // a / 256, exact
+  let dy = b as f64 * 0.00390625;
+  unsafe { CUT = (h, dx.to_bits(), dy.to_bits()); }
   let layer = hp::nested::get_or_create(depth);
-  let (h, dx, dy) = layer.hash_with_dxdy(0.0, 0.0);
-  kani::assume(h < spec_n_hash(depth) && dx >= 0.0 && dx <= 1.0 && dy >= 0.0 && dy <= 1.0);   // decided by C03 (image harness)
   if region == 1 {
     let m = layer.neighbours(h, false);
     kani::assume(m.get(MainWind::S).is_none() || m.get(MainWind::E).is_none() || m.get(MainWind::N).is_none() || m.get(MainWind::W).is_none());
   }
-  kani::cover!(dx > 0.5 && dy > 0.5, "north quadrant");
-  kani::cover!(dx < 0.5 && dy > 0.5, "west quadrant");
+  kani::cover!(a > 128 && b > 128, "north quadrant");
+  kani::cover!(a < 128 && b > 128, "west quadrant");
+  kani::cover!(a == 128 && b == 128, "cell centre");
   let res = layer.bilinear_interpolation(0.0, 0.0);
   c19_check(depth, &res, h, dx, dy);
 }
